@@ -193,6 +193,22 @@ def _handle_suspended(
     to SUSPENDED and do NOT push any continuation messages. The stage
     will be resumed when a SignalStage message is received.
     """
+    # The stage was reloaded after the task ran: if it (or the task) was completed
+    # or canceled meanwhile, suspending would resurrect a finished entity.
+    if stage.status != WorkflowStatus.RUNNING or task_model.status != WorkflowStatus.RUNNING:
+        logger.info(
+            "Task %s returned suspend but stage is %s / task is %s - ignoring",
+            task_model.name,
+            stage.status,
+            task_model.status,
+        )
+        txn_helper.execute_atomic(
+            source_message=message,
+            messages_to_push=[],
+            handler_name="RunTask",
+        )
+        return
+
     logger.info(
         "Task %s suspended, waiting for signal",
         task_model.name,
